@@ -9,15 +9,66 @@ import (
 	"testing"
 	"time"
 
+	bfuse "github.com/anacrolix/fuse"
+	fusefs "github.com/anacrolix/fuse/fs"
 	"github.com/restic/restic/internal/backend"
+	"github.com/restic/restic/internal/fuse"
 	"github.com/restic/restic/internal/global"
 	"github.com/restic/restic/internal/ui"
+	"github.com/restic/restic/internal/ui/progress"
 	"github.com/restic/restic/internal/verif/hx"
 	"github.com/restic/restic/internal/verif/model"
 	"github.com/restic/restic/internal/verif/simbe"
 	"github.com/restic/restic/internal/verif/simfs"
 	"github.com/restic/restic/internal/verif/simrt"
 )
+
+// mountWalk opens the repository the way `restic mount` does and reads every
+// directory below ids/ through the FUSE node interface.
+func mountWalk(ctx context.Context, g global.Options, term ui.Terminal, again bool) error {
+	printer := progress.NewTerminalPrinter(false, 0, term)
+	ctx, repo, unlock, err := openWithReadLock(ctx, g, g.NoLock, printer)
+	if err != nil {
+		return err
+	}
+	defer unlock()
+	if err := repo.LoadIndex(ctx, printer); err != nil {
+		return err
+	}
+	root := fuse.NewRoot(repo, fuse.Config{OwnerIsRoot: true, TimeTemplate: time.RFC3339, PathTemplates: []string{"ids/%i"}})
+	var walk func(n fusefs.Node, path string, depth int) error
+	walk = func(n fusefs.Node, path string, depth int) error {
+		rd, ok := n.(fusefs.HandleReadDirAller)
+		if !ok || depth > 12 {
+			return nil
+		}
+		ents, err := rd.ReadDirAll(ctx)
+		if err != nil {
+			return fmt.Errorf("mount: reading directory %s: %w", path, err)
+		}
+		for _, e := range ents {
+			if e.Name == "." || e.Name == ".." || e.Type != bfuse.DT_Dir {
+				continue
+			}
+			child, err := n.(fusefs.NodeStringLookuper).Lookup(ctx, e.Name)
+			if err != nil {
+				return fmt.Errorf("mount: %s/%s is listed but cannot be opened: %w", path, e.Name, err)
+			}
+			if err := walk(child, path+"/"+e.Name, depth+1); err != nil {
+				return err
+			}
+		}
+		return nil
+	}
+	if err := walk(root, "", 0); err != nil {
+		return err
+	}
+	if again {
+		time.Sleep(61 * time.Second)
+		return walk(root, "", 0)
+	}
+	return nil
+}
 
 func benignReaderError(err error) bool {
 	if err == nil {
@@ -118,7 +169,7 @@ func TestVerifC14(t *testing.T) {
 				ncmd := tp.Range(1, 3)
 				var cmds []string
 				for k := 0; k < ncmd; k++ {
-					cmds = append(cmds, []string{"ls", "find", "dump", "restore", "check", "ls-all", "diff"}[tp.Choose(7)])
+					cmds = append(cmds, []string{"ls", "find", "dump", "restore", "check", "ls-all", "diff", "mount"}[tp.Choose(8)])
 				}
 				delay := time.Duration(tp.Choose(6)) * 100 * time.Millisecond
 				gap := time.Duration(tp.Choose(4)) * 100 * time.Millisecond
@@ -151,6 +202,10 @@ func TestVerifC14(t *testing.T) {
 							g2 := g
 							g2.NoLock = true
 							_, err = runCheck(ctx, CheckOptions{ReadData: true}, g2, nil, term)
+						case "mount":
+							// the mount command's view without a kernel mount: open like runMount does, then
+							// walk the ids/ directory of the FUSE tree (twice, the second time after the reload interval)
+							err = mountWalk(ctx, g, term, tp.Choose(2) == 1)
 						case "diff":
 							ids := w.snapshotIDs()
 							if len(ids) >= 2 {
